@@ -1941,6 +1941,7 @@ class _Normalizer:
             for ch in ast.iter_child_nodes(node):
                 if isinstance(ch, (ast.FunctionDef, ast.AsyncFunctionDef)):
                     bound = _bound_names(ch)
+                    self._cur_fnode = ch
                     fn(ch, cls, outer | bound)
                     visit(ch, cls, outer | bound)
                 elif isinstance(ch, ast.ClassDef):
@@ -2861,6 +2862,20 @@ class _Normalizer:
             return False
         return True
 
+    def _caller_default_none(self, arg) -> bool:
+        """the argument is a parameter of the calling function that defaults to None itself (its "not given" is handed on)"""
+        cur = getattr(self, '_cur_fnode', None)
+        if cur is None or not isinstance(arg, ast.Name):
+            return False
+        a_ = cur.args
+        names = [x.arg for x in a_.args]
+        defaults = dict(zip(names[len(names) - len(a_.defaults):], a_.defaults))
+        for x, d in zip(a_.kwonlyargs, a_.kw_defaults):
+            if d is not None:
+                defaults[x.arg] = d
+        d = defaults.get(arg.id)
+        return isinstance(d, ast.Constant) and d.value is None
+
     def _expand(self, fi, recv, call: ast.Call, allow_yield: bool = False):
         """-> (prefix statements, replacement expression) for one call of an inlinable helper, or None."""
         self.counter += 1
@@ -2898,7 +2913,8 @@ class _Normalizer:
         sentinel: Set[str] = set()
         for p, d in zip(params[len(params) - len(defaults):], defaults):
             if p in supplied and isinstance(d, ast.Constant) and d.value is None \
-                    and not (isinstance(binding[p], ast.Constant) and binding[p].value is None):
+                    and not (isinstance(binding[p], ast.Constant) and binding[p].value is None) \
+                    and not self._caller_default_none(binding[p]):
                 sentinel.add(p)
             binding.setdefault(p, d)
         if any(p not in binding for p in params):
